@@ -195,7 +195,6 @@ def shrink(seed, labels, fail):
 
 def run(rep, args, rng):
     """extra of the C03 check (harness/core.py main)."""
-    import multiprocessing as mp
     n = 220 if args.tier == "quick" else 6000
     if getattr(args, "replay", None):
         return {}
@@ -207,10 +206,21 @@ def run(rep, args, rng):
             if f.endswith(".json"):
                 seeds.append(json.load(open(os.path.join(cdir, f)))["case"]["ctxmon_seed"])
     seeds += [rng.randrange(1 << 30) for _ in range(n)]
-    with mp.get_context("fork").Pool(min(K.JOBS, 8)) as pool:
-        res = pool.map(_job, seeds, chunksize=8)
+    # every block runs in its own forked child (GLPK now and then aborts the whole process on an internal assertion,
+    # e.g. bflib/sgf.c: a pool would hang on the dead worker); a few threads keep the children in flight
+    from concurrent.futures import ThreadPoolExecutor
+
+    def isolated(seed):
+        kind, val = K.run_isolated(_job, seed, timeout=180)
+        if kind == "ok":
+            return val
+        return seed, (["<aborted>"], {"what": "aborted", "exception": str(val)[:200]})
+    with ThreadPoolExecutor(max_workers=min(K.JOBS, 8)) as ex:
+        res = list(ex.map(isolated, seeds))
     dist, n_fail, seen = {}, 0, set()
     harness_faults = 0
+    aborted = sum(1 for _, (_, f) in res if f is not None and f["what"] == "aborted")
+    res = [(sd, (lab, None if (f is not None and f["what"] == "aborted") else f)) for sd, (lab, f) in res]
     for seed, (labels, fail) in res:
         for x in labels:
             k = x.split("!")[0]
@@ -227,7 +237,8 @@ def run(rep, args, rng):
             continue
         seen.add(key)
         rep.violation(sig, shrink(seed, labels, fail))
-    return {"blocks_checked": n, "failures": n_fail, "harness_faults": harness_faults, "operation_distribution": dist,
+    return {"blocks_checked": n, "failures": n_fail, "harness_faults": harness_faults,
+            "aborted_by_solver_library_or_timeout": aborted, "operation_distribution": dist,
             "decides": "observation at __enter__ == observation after __exit__ (obsmodel.diff), __exit__ does not raise"}
 
 
